@@ -8,6 +8,7 @@ import ALV.Lemmas.C17Chunks
 import ALV.Lemmas.C17Locks
 import ALV.Lemmas.C17Shutdown
 import ALV.Lemmas.C17Paused
+import ALV.Lemmas.C17Wait
 import ALV.Common.Audit
 
 namespace ALV.Props.C17
@@ -439,6 +440,32 @@ example : let s := (runSched ⟨true, true, 2⟩
       (mkSched [0,0,0,0,0,1,0,0,0,1,1,1,0,0,0,1,1,1,0,0,0,1,1,1,0,1,1,1,0,0,0,0,0])).1
     (terminal ⟨true, true, 2⟩ s = true ∧ Ev.closeOk [false] 0 ∈ s.log ∧ noneAlive s = true ∧
       (s.players.map (·.written)) = [[[101, 102], [103, 0]]]) := by
+  decide
+
+/-- **C17.14 wait_close_delivers_all** — "after waiting for all audio when wait is true": with
+`wait=True` `close` never stops a player, so if the script itself never calls `stop()`, then once
+a `close` has returned EVERY device stream has received its whole chunk sequence (the audio
+followed by the zero padding, `chunks_are_padded_audio`) — for every schedule, both variants of
+`stop()`. -/
+theorem wait_close_delivers_all {cfg : Cfg} {script : List Cmd} {s : State} (hw : cfg.wait = true)
+    (hns : ∀ i, Cmd.ctl .stop i ∉ script) (hr : Reach cfg script s)
+    (al : List Bool) (n : Nat) (hc : Ev.closeOk al n ∈ s.log)
+    (k : Nat) (p : Player) (hp : s.players[k]? = some p) :
+    p.written = chunksOf cfg.cs p.audio := by
+  have hca := closed_after_close hr al n hc
+  have hex : exiting p = true := by
+    unfold closedAfter at hca
+    simp only [Bool.and_eq_true, List.all_eq_true] at hca
+    exact (hca.2 p (List.mem_of_getElem? hp)).2
+  have hal : afterLoop p.pc = true := by
+    revert hex; unfold exiting; cases p.pc <;> simp [afterLoop]
+  exact (delivered_prefix hr k p hp).2 hal ((hn_reach hw hns hr).noHalt k p hp)
+
+/-- non-vacuity: `wait=True`, pause and resume, three samples in chunks of two -/
+example : let s := (runSched ⟨true, true, 2⟩
+      (init [.play [101, 102, 103], .ctl .pause 0, .ctl .resume 0, .close])
+      (mkSched [0,0,0,0,0,1,0,0,0,1,1,1,0,0,0,1,1,1,0,0,0,1,1,1,0,1,1,1,0,0,0,0,0])).1
+    (Ev.closeOk [false] 0 ∈ s.log ∧ s.players.map (·.written) = [[[101, 102], [103, 0]]]) := by
   decide
 
 /-! ### the deadlock of the code as it is (D10) -/
